@@ -34,4 +34,9 @@ def gen_C16():
         r"removed_mask\s*=\s*if\s+delta\s*==\s*([\w]+)\s*\{\s*u128::MAX\s*\}", src).group(1))), SW)
     # ack::Settings::RECOMMENDED.ack_ranges_limit
     f.const("ack_ranges_limit", ACKS, r"const\s+RECOMMENDED_RANGES_LIMIT\s*:\s*u8\s*=\s*([^;]+);")
+    # packet number Map: DEFAULT_CAPACITY
+    f.const("pnmap_default_capacity", "quic/s2n-quic-core/src/packet/number/map.rs",
+            r"const\s+DEFAULT_CAPACITY\s*:\s*usize\s*=\s*([^;]+);")
+    # IntervalSet::index_for: `if self.interval_len() < 16 { return 0; }`
+    f.const("iset_linear_threshold", ISET, r"fn\s+index_for.*?if\s+self\.interval_len\(\)\s*<\s*(\d+)\s*\{")
     return f
